@@ -57,7 +57,7 @@ def gen_world(rng, wid):
                 qi = pk.index(q)
                 if pkgs[qi]["vars"] and rng.random() < 0.6:
                     cross.append((q, rng.choice(pkgs[qi]["vars"])["name"]))
-            patched = rng.choice([None, None, None, "atomic", "reflect", "once", "rtvar", "embedfs"]) if rng.random() < 0.5 else None
+            patched = rng.choice([None, None, None, "atomic", "reflect", "once", "rtvar", "embedfs", "abikind"]) if rng.random() < 0.5 else None
             vars_.append({"name": names[k], "deps": deps, "via": via, "cross": cross, "patched": patched,
                           "file": "a" if k < (nv + 1) // 2 else "b"})
         p["vars"] = vars_
@@ -74,7 +74,7 @@ def gen_world(rng, wid):
                 val += done[d]
             for q, qv in v["cross"]:
                 val += values[(q, qv)]
-            val += {"atomic": 5, "reflect": 2, "once": 7, "rtvar": 4, "embedfs": 6, None: 0}[v["patched"]]
+            val += {"atomic": 5, "reflect": 2, "once": 7, "rtvar": 4, "embedfs": 6, "abikind": 3, None: 0}[v["patched"]]
             done[v["name"]] = val % 1000003
             values[(p["name"], v["name"])] = done[v["name"]]
     return {"id": wid, "pkgs": pkgs, "values": {"%s.%s" % k: v for k, v in values.items()}}
@@ -89,6 +89,7 @@ def render_world(world, moddir, modname):
         uses_reflect = any(v["patched"] == "reflect" for v in p["vars"])
         uses_once = any(v["patched"] == "once" for v in p["vars"])
         uses_embed = any(v["patched"] == "embedfs" for v in p["vars"])
+        uses_abikind = any(v["patched"] == "abikind" for v in p["vars"])
         imports_a = ['"%s/%s"' % (modname, q) for q in p["imports"]]
         head = {"a": ["package %s" % p["name"], ""], "b": ["package %s" % p["name"], ""]}
         need = {"a": set(), "b": set()}
@@ -114,6 +115,12 @@ def render_world(world, moddir, modname):
                 # initialised before its importers
                 terms.append("debug.SetGCPercent(100)/25")
                 need[f].add("runtime/debug")
+            if v["patched"] == "abikind":
+                # state that only the ORIGINAL half of a partially overlaid std package sets up: internal/abi's table of
+                # kind names (filled by the original initialiser, which llgo's replacement initialiser chains to);
+                # sync imports internal/abi, so it is initialised before this package.  len("int") = 3
+                terms.append("len(abiKindString(2))")
+                uses_abikind = True
             if v["patched"] == "embedfs":
                 # an embed.FS variable is set before any initialisation code of its package runs
                 terms.append("embLen()")
@@ -130,6 +137,10 @@ def render_world(world, moddir, modname):
             for _ in range(cnt):
                 k += 1
                 files[f].append("func init() { println(\"I\", \"%s\", %d) }" % (p["name"], k))
+        if uses_abikind:
+            need["a"].add("unsafe")
+            need["a"].add("sync")
+            files["a"].insert(0, "//go:linkname abiKindString internal/abi.Kind.String\nfunc abiKindString(k uint8) string\n\nvar abiMu sync.Mutex // keeps the import of sync (and through it internal/abi) in this file\n")
         if uses_embed:
             need["a"].add("embed")
             # declared first: a variable without initialiser still takes its turn in declaration order, and the
@@ -156,7 +167,9 @@ def render_world(world, moddir, modname):
                 continue
             imps = []
             for q in sorted(need[f]):
-                if q in ("sync/atomic", "reflect", "sync", "runtime/debug", "embed"):
+                if q == "unsafe":
+                    imps.append('_ "unsafe"')
+                elif q in ("sync/atomic", "reflect", "sync", "runtime/debug", "embed"):
                     imps.append('"%s"' % q)
                 else:
                     imps.append('"%s/%s"' % (modname, q))
@@ -231,7 +244,9 @@ def check(chk):
         with open(os.path.join(d, "main.go"), "w") as f:
             f.write("package main\n\nimport (\n" + "".join('\t_ "%s/%s"\n' % (modname, w["pkgs"][0]["name"]) for w in ws) + ")\n\nfunc main() { println(\"M\") }\n")
         ref = os.path.join(d, "ref.exe")
-        ok, out = C.go_build(d, ref)
+        renv = C.base_env()
+        renv["GOFLAGS"] = (renv.get("GOFLAGS", "") + " -ldflags=-checklinkname=0").strip()   # the abikind probe pulls internal/abi.Kind.String
+        ok, out = C.go_build(d, ref, env=renv)
         if not ok:
             return ("refbuild", out)
         st, so, se = C.run_exe(ref, timeout=60, merge=True)
